@@ -175,6 +175,35 @@ func (p *Prog) BuildSSA() {
 		return
 	}
 	prog, _ := ssautil.AllPackages(p.All, ssa.InstantiateGenerics)
+	// packages flagged IllTyped only because of the tolerated go-list complaint about the
+	// cgo package pam (and their importers) are skipped by AllPackages: create them by hand,
+	// dependencies first (p.All is in post-order from packages.Visit... ensure by sorting on import depth)
+	var missing []*packages.Package
+	for _, pk := range p.All {
+		if pk.Types != nil && pk.TypesInfo != nil && len(pk.Syntax) > 0 && len(pk.TypeErrors) == 0 && prog.Package(pk.Types) == nil {
+			missing = append(missing, pk)
+		}
+	}
+	created := map[*packages.Package]bool{}
+	var create func(pk *packages.Package)
+	create = func(pk *packages.Package) {
+		if created[pk] {
+			return
+		}
+		created[pk] = true
+		for _, imp := range pk.Imports {
+			for _, m := range missing {
+				if m == imp {
+					create(m)
+				}
+			}
+		}
+		prog.CreatePackage(pk.Types, pk.Syntax, pk.TypesInfo, true)
+		p.LoadNotes = append(p.LoadNotes, "ssa package created by hand (flagged ill-typed by the loader only through the pam cgo complaint): "+pk.PkgPath)
+	}
+	for _, m := range missing {
+		create(m)
+	}
 	prog.Build()
 	p.SSA = prog
 	p.ssaPkg = map[*types.Package]*ssa.Package{}
